@@ -13,7 +13,9 @@ What is abstract: the namespace tree is a flat list of entries in `get_all_types
 C11's model), the class hierarchy behind `type_to_template` is a per-entry candidate list (C16's model), the
 content of files is not modelled at all — only *which* files are read, listed, created.
 
-The model describes the code **after** the proposed fixes: `fix_list_configuration_skips_dsdl` (round 2: the DSDL front end
+The model describes the code **after** the proposed fixes: `fix_list_inputs_all_template_dir_files` and
+`fix_list_inputs_lookup_dsdl` (round 2: `--list-inputs` names every file of the template directories and every definition below
+the lookup directories; before: `listInputsOnlyBeforeInputsFix` / `runBeforeInputsFix`), `fix_list_configuration_skips_dsdl` (round 2: the DSDL front end
 is skipped only when `run` really does nothing but list the configuration; before: `runLcBeforeFix`), `fix_list_outputs_omit` (the listing path hands
 `--omit-serialization-support` to the generators exactly like the generating path) and
 `fix_list_inputs_support_templates` (`SupportGenerator.get_templates` reports the file its loader opens).  The
@@ -103,6 +105,7 @@ structure Args where
   stemArg : Option String                       -- `--namespace-output-stem`
   templates : Option (List TemplateFile)        -- every file below `--templates DIR` (none: option absent)
   supportTemplates : Option (List TemplateFile) -- every file below `--support-templates DIR`
+  lookupFiles : List String := []               -- every `*.dsdl` / `*.uavcan` below the lookup directories (resolved)
   deriving Repr
 
 /-- What `ArgparseRunner.run` does.  `listConfiguration`: `_list_configuration_only` prints the resolved configuration
@@ -171,6 +174,20 @@ def typeTemplates (a : Args) : List TemplateFile :=
   match a.templates with
   | some fs => fs.filter fun f => (".j2".toList).isSuffixOf f.name.toList && !f.viaLinkedDir
   | none => (typeLoaderFiles a).filter fun f => isJ2 f.name
+
+/-- A loader-relative name with a `__pycache__` directory on the way: byte code the interpreter writes by itself, not an
+input. -/
+def inPycache (name : String) : Bool :=
+  let rec go : List Char → List Char → Bool
+    | [], _ => false       -- the last component is a file name, not a directory
+    | c :: r, cur => if c = '/' then (cur.reverse = "__pycache__".toList || go r []) else go r (c :: cur)
+  go name.toList []
+
+/-- `DSDLTemplateLoader.get_template_inputs` (after `fix_list_inputs_all_template_dir_files`): every file of the search
+path — any suffix, directory links followed — or of the template package, except what lies below a `__pycache__`
+directory. -/
+def typeInputs (a : Args) : List TemplateFile :=
+  (typeLoaderFiles a).filter fun f => !inPycache f.name
 
 /-- `type_to_template` + `filter_type_to_template` + `Environment.get_template`: the first candidate class name
 that is the stem of some `.j2` file the loader lists; the template is then requested by `<stem>.j2`, which only a
@@ -333,19 +350,26 @@ def supportTemplateRead (a : Args) (name : String) : String :=
       | none => supportPath a name
   else supportPath a name
 
-/-- `_list_inputs_only`, generic in what `SupportGenerator.get_templates` reports for a resource. -/
-def listInputsWith (supportSource : Args → String → String) (a : Args) (tree : List (Entry × OutPath)) : Run :=
+/-- `_list_inputs_only`, generic in what the two generators' `get_templates` report: the type generator's files, the
+support generator's file for each resource, the sources of the generated types, then (`withLookup`, after
+`fix_list_inputs_lookup_dsdl`) every definition below the lookup directories. -/
+def listInputsGen (typeFiles : Args → List TemplateFile) (supportSource : Args → String → String) (withLookup : Bool)
+    (a : Args) (tree : List (Entry × OutPath)) : Run :=
   { inputs :=
-      (if a.genSupport != .only then (typeTemplates a).map (·.path) else []) ++
+      (if a.genSupport != .only then (typeFiles a).map (·.path) else []) ++
       (if shouldGenerateSupport a then (supportResources a a.omitSer).map (supportSource a) else []) ++
-      (if a.genSupport != .only then (selected a tree).map (·.1.src) else []) }
+      (if a.genSupport != .only then (selected a tree).map (·.1.src) ++ (if withLookup then a.lookupFiles else []) else []) }
 
-/-- `_list_inputs_only` (after `fix_list_inputs_support_templates`: the support generator reports the file its
-loader opens) -/
-def listInputsOnly : Args → List (Entry × OutPath) → Run := listInputsWith supportTemplateRead
+/-- `_list_inputs_only` (after `fix_list_inputs_support_templates`, `fix_list_inputs_all_template_dir_files`,
+`fix_list_inputs_lookup_dsdl`) -/
+def listInputsOnly : Args → List (Entry × OutPath) → Run := listInputsGen typeInputs supportTemplateRead true
 
-/-- `_list_inputs_only` of the unchanged code: always the packaged resource. -/
-def listInputsOnlyBeforeFix : Args → List (Entry × OutPath) → Run := listInputsWith supportPath
+/-- `_list_inputs_only` before the two round-2 fixes: only `*.j2` files that `glob("**/*.j2")` reaches, nothing from the
+lookup directories. -/
+def listInputsOnlyBeforeInputsFix : Args → List (Entry × OutPath) → Run := listInputsGen typeTemplates supportTemplateRead false
+
+/-- `_list_inputs_only` of the code before round 1: in addition always the packaged support resource. -/
+def listInputsOnlyBeforeFix : Args → List (Entry × OutPath) → Run := listInputsGen typeTemplates supportPath false
 
 /-- `_generate`: support first, then the types. -/
 def generate (a : Args) (dry : Bool) (tree : List (Entry × OutPath)) : Run :=
@@ -386,6 +410,7 @@ def runLcBeforeFix (m : Mode) (lcFlag : Bool) (a : Args) (entries : List Entry) 
 
 def run : Mode → Args → List Entry → Run := runWith listOutputsOnly listInputsOnly
 def runBeforeFix : Mode → Args → List Entry → Run := runWith listOutputsOnlyBeforeFix listInputsOnlyBeforeFix
+def runBeforeInputsFix : Mode → Args → List Entry → Run := runWith listOutputsOnly listInputsOnlyBeforeInputsFix
 
 /-- The files a real run creates. -/
 def generated (a : Args) (entries : List Entry) : List OutPath := written (run .generate a entries).ops
